@@ -283,11 +283,21 @@ class Rng:
         return a + (b - a) * ((self.next() >> 11) / float(1 << 53))
 
 
-def known_findings():
-    p = os.path.join(VERIF, "known_findings.json")
-    if not os.path.exists(p):
-        return []
-    return json.load(open(p)).get("findings", [])
+def known_findings(pid=None):
+    """Entries of /verif/known_findings.json and /verif/known_findings.d/*.json (committed files, never written at
+    run time).  Each entry: {"id": "F3", "properties": ["C08"], "status": "known" | "fixed", "what": "...", "signature": {...}}.
+    Only status "known" entries may suppress a violation; "fixed" entries are documentation."""
+    out = []
+    for p in [os.path.join(VERIF, "known_findings.json")] + sorted(glob.glob(os.path.join(VERIF, "known_findings.d", "*.json"))):
+        if os.path.exists(p):
+            out += json.load(open(p)).get("findings", [])
+    if pid:
+        out = [f for f in out if pid in f.get("properties", [])]
+    return out
+
+
+def known_active(pid):
+    return [f for f in known_findings(pid) if f.get("status") == "known"]
 
 
 class Ctx:
@@ -366,29 +376,38 @@ class Ctx:
 
 # ------------------------------------------------------------------ the proof half of a check
 
-def gen_lean():
-    """Regenerate lean/SoxrModel/Generated.lean from /repo's working tree (only rewritten when it changes)."""
-    exe = build_harness("gen", ["gen/gen.c"], variant="dbg")
-    r = sh([exe])
+def gen_lean(area):
+    """Regenerate lean/SoxrModel/<Area>/Generated.lean from /repo's working tree by compiling and running
+    harness/<area>/gen.c (a C program that #includes the real sources and prints Lean definitions).
+    The file is only rewritten when its content changes, so an unchanged tree costs no rebuild."""
+    low = area.lower()
+    exe = build_harness("gen_" + low, [low + "/gen.c"], variant="dbg")
+    r = subprocess.run([exe], stdout=subprocess.PIPE, stderr=subprocess.PIPE, universal_newlines=True)
     if r.returncode:
-        raise BuildError("generator failed:\n" + r.stdout[:3000])
-    path = os.path.join(LEAN, "SoxrModel", "Generated.lean")
-    old = open(path).read() if os.path.exists(path) else None
-    if old != r.stdout:
-        open(path, "w").write(r.stdout)
-        return True
+        raise BuildError("generator %s failed:\n%s" % (area, (r.stdout + r.stderr)[:3000]))
+    path = os.path.join(LEAN, "SoxrModel", area, "Generated.lean")
+    with Lock("gen-" + low):
+        old = open(path).read() if os.path.exists(path) else None
+        if old != r.stdout:
+            open(path, "w").write(r.stdout)
+            return True
     return False
 
 
-def proof_stage(ctx, modules, audit_module, exes=("soxrmodel",)):
+def proof_stage(ctx, modules, audit_module, exes=("soxrmodel",), gens=()):
     """generate -> build -> audit.  Fills the proof keys of the evidence.
+    modules: lake module targets (e.g. "SoxrModel.Properties.C03"); audit_module: "C03" (SoxrModel/Audit/C03.lean lists
+    `#print axioms` for every theorem of SoxrModel/Properties/C03.lean); exes: lean_exe targets to build;
+    gens: areas whose Generated.lean is regenerated from /repo first.
     Returns a list of broken obligations (strings); empty when every theorem checks with clean axioms."""
     broken = []
-    try:
-        changed = gen_lean()
-    except BuildError as e:
-        ctx.notes.append("generator: " + str(e)[:2000])
-        return ["generator (Generated.lean could not be produced from /repo): " + str(e)[:1500]]
+    changed = False
+    for area in gens:
+        try:
+            changed = gen_lean(area) or changed
+        except BuildError as e:
+            ctx.notes.append("generator: " + str(e)[:2000])
+            return ["generator (%s/Generated.lean could not be produced from /repo): %s" % (area, str(e)[:1500])]
     ctx.cov["generated_lean_changed"] = changed
     t = time.time()
     ok, out = lake_build(list(modules) + list(exes))
@@ -428,7 +447,7 @@ def proof_stage(ctx, modules, audit_module, exes=("soxrmodel",)):
     ctx.cov["trusted_base"] = [
         "Lean 4.33.0 kernel (lake build; leanchecker in the thorough tier)",
         "axioms: " + ", ".join(sorted(OK_AXIOMS)) + " only (audited by #print axioms on every run)",
-        "generator harness/gen/gen.c (prints constants of /repo/src as Lean literals)",
+        "generators harness/<area>/gen.c (print constants of /repo/src as Lean literals): " + (", ".join(gens) or "none used"),
         "correspondence harness + line protocol + Lean compiler for the driver executable",
     ]
     return broken
